@@ -3,9 +3,11 @@
 EXTENDS Blacklist, Json
 
 \* one state per (configuration, peer); nothing moves
+GenPeer0 == c[CHOOSE k \in Conns : TRUE].peer
 GenInit == /\ cfg \in Cfgs
            /\ cached = {}
            /\ c \in { [k \in Conns |-> [Fresh EXCEPT !.peer = p]] : p \in Peers }
+           /\ cfg.dual => GenPeer0 \in V4Addrs      \* the dual-stack instance is exercised by IPv4 clients
 GenNext == FALSE /\ UNCHANGED vars
 
 GenPeer == c[CHOOSE k \in Conns : TRUE].peer
@@ -16,9 +18,9 @@ Row(x) == [p   |-> x.present,
            es  |-> x.es,
            exp |-> Decide(cfg.mode, cfg.list, GenPeer, x),
            m   |-> [rt \in RouteTypes |-> Model({}, cfg, GenPeer, x, rt, FALSE)],
-           dev |-> [d \in HistoricalDevs |-> [rt \in RouteTypes |-> Model({d}, cfg, GenPeer, x, rt, FALSE)]]]
+           dev |-> [d \in HistoricalDevs \cup {"MappedListEntryUnmatched"} |-> [rt \in RouteTypes |-> Model({d}, cfg, GenPeer, x, rt, FALSE)]]]
 
-GenInv == PrintT(ToJson([mode |-> cfg.mode, list |-> cfg.list, cache |-> cfg.cache, peer |-> GenPeer,
+GenInv == PrintT(ToJson([mode |-> cfg.mode, list |-> cfg.list, cache |-> cfg.cache, dual |-> cfg.dual, lm |-> cfg.lm, peer |-> GenPeer,
                          rows |-> { Row(x) : x \in AllXff }]))
 
 \* the model of the repaired code never leaves what the property allows, for every cached-ness:
